@@ -49,5 +49,40 @@ DetTree(t, env) ==
 
 OrdTree(t, env) == t.k = "sel" /\ DetTree(t, env) /\ SelOrdered(t, env)
 
+(***************************************************************************)
+(* Engine-aware generalisation for multi-engine trees: iteration engines   *)
+(* preserve list order, a SQL engine guarantees an order only through an   *)
+(* outermost total sort (which the transfer hook then fetches in order).   *)
+(*   ListDet(t, env)  every execution yields exactly the list Den(t, env)  *)
+(*   BagDet(t, env)   every execution yields the bag of Den(t, env)        *)
+(***************************************************************************)
+RECURSIVE ListDet(_, _)
+RECURSIVE BagDet(_, _)
+ListDet(t, env) ==
+    CASE t.k = "leaf" -> KindOf(t.eng) = "iter"
+      [] t.k = "un" ->
+            IF KindOf(Eng(t)) = "iter"
+            THEN \/ ListDet(t.t, env)
+                 \/ (t.op.o = "sort" /\ BagDet(t.t, env) /\ TotalOn(t.op.terms, Den(t.t, env)))
+            ELSE FALSE
+      [] t.k = "bin" -> KindOf(Eng(t)) = "iter" /\ ListDet(t.l, env) /\ ListDet(t.r, env)
+      [] t.k \in {"xfer", "mat"} -> ListDet(t.t, env)
+      [] t.k = "sel" -> BagDet(t, env) /\ SelOrdered(t, env)
+BagDet(t, env) ==
+    CASE t.k = "leaf" -> TRUE
+      [] t.k = "un" ->
+            /\ BagDet(t.t, env)
+            /\ t.op.o = "slice" =>
+                  \/ ListDet(t.t, env)
+                  \/ TrivialWindow(t.op.a, t.op.b, Len(Den(t.t, env)))
+      [] t.k = "bin" -> BagDet(t.l, env) /\ BagDet(t.r, env)
+      [] t.k \in {"xfer", "mat"} -> BagDet(t.t, env)
+      [] t.k = "sel" ->
+            /\ BagDet(t.skip, env)
+            /\ HasSlice(t) =>
+                  \/ TrivialWindow(t.a, t.b,
+                                   Len(ApplyOps(SelOps([t EXCEPT !.a = 0, !.b = -1]), Den(t.skip, env))))
+                  \/ SelOrdered(t, env)
+
 RevEnv(env) == [id \in DOMAIN env |-> [i \in DOMAIN env[id] |-> env[id][Len(env[id]) + 1 - i]]]
 =============================================================================
